@@ -145,6 +145,21 @@ LiteralEndsAtFirstTerminator ==
       /\ st.after = e.resume
 
 ----------------------------------------------------------------------------
+\* C09 (model level): pumping.  s = opener + unit; the pumped input opener + unit^k costs the
+\* reference algorithm at most a constant number of passes over the input: the spans of the scan
+\* steps are disjoint (C16) and every pass scans at most once.
+PumpK == 6
+RECURSIVE Rep(_, _)
+Rep(v, k) == IF k = 0 THEN <<>> ELSE v \o Rep(v, k - 1)
+Pumped == SubSeq(s, 1, x.o) \o Rep(SubSeq(s, x.o + 1, n), PumpK)
+PumpLinear ==
+  LET w == Pumped IN
+  /\ \A fl \in {9, 17, 10, 20} :
+       LET L == LexAll(w, fl) IN
+       /\ Len(L) <= Len(w)
+       /\ \A i \in DOMAIN L : L[i].after > L[i].before /\ (i > 1 => L[i].before = L[i - 1].after)
+  /\ Len(Check(w).passes) <= 5
+
 Prop ==
   stage = 1 =>
   CASE Mode = "case"  -> CaseInsensitive
@@ -152,6 +167,7 @@ Prop ==
     [] Mode = "c14"   -> PlainNeverSqli /\ PlainFetchBound /\ NoPlainFingerprint
     [] Mode = "c18"   -> LiteralEndsAtFirstTerminator
     [] Mode = "c03"   -> IsSQLiSpec(s)
+    [] Mode = "pump"  -> PumpLinear
 
 Export ==
   (DoExport /\ stage = 1) =>
@@ -165,4 +181,5 @@ Export ==
            PrintT(ToJson([in |-> s, kind |-> OpenerKind.k, idx |-> OpenerKind.idx,
                           exp |-> [fl \in LitFlags |-> LitExpect(fl)], flags |-> SetToSeq(LitFlags)]))
       [] Mode = "c03" -> PrintT(ToJson([in |-> s, pred |-> Check(s)]))
+      [] Mode = "pump" -> n = x.o \/ PrintT(ToJson([pre |-> SubSeq(s, 1, x.o), rep |-> SubSeq(s, x.o + 1, n)]))
 ====
